@@ -25,7 +25,7 @@ PID = "C15"
 RULE = ("seeded random typed programs (depth <= 3) plain or behind a 2-3-yield prefix; for each, every layout variant "
         "(6 whitespace/comment fillers, redundant parentheses, empty expressions `()` sprinkled between statements, 3 integer spellings, 4 escape spellings, string splitting, "
         "sugar off), every single-position structural rewrite (E? / if / ?(E) / !(E) / infix / raw string), and the "
-        "unsimplified build.  Non-trivial: the rewrite position is nested inside another construct, or the simplifier "
+        "unsimplified build; the directives %s %d %x %o %b against their %( ... %) expansions on DWARF values too (attributes, symbols, location operations, DIEs, abbreviations, units of four sample files: their `value` is a named constant, an address, a string).  Non-trivial: the rewrite position is nested inside another construct, or the simplifier "
         "changed the tree (printed trees differ), or a comment was inserted.  Distinct by (program, variant).")
 
 INFIXW = {"==": "?eq", "!=": "?ne", "<": "?lt", "<=": "?le", ">": "?gt", ">=": "?ge", "=~": "?match", "!~": "!match"}
@@ -261,6 +261,50 @@ def work(task):
     return ev
 
 
+# The directives stand for `%( value hex %)` etc. whatever is on top of the stack -- also a DWARF value, whose
+# `value` is a named constant, an address, a string, a DIE ...
+DW_SUGAR_FILES = ["/repo/tests/a1.out", "/repo/tests/nontrivial-types.o", "/repo/tests/y-mips.o", "/repo/tests/enum.o"]
+DW_SUGAR_PREFIXES = ["entry attribute", "entry attribute ?AT_name", "entry attribute ?AT_language", "entry attribute ?AT_low_pc", "symbol",
+                     "entry @AT_location elem", "entry ?(@AT_location) @AT_location", "entry", "entry attribute value", "entry attribute label",
+                     "entry attribute form", "entry abbrev", "entry abbrev attribute", "unit", "entry address", "symbol label", "entry offset",
+                     "entry @AT_decl_line", "entry @AT_encoding", "entry @AT_const_value", "entry attribute ?AT_byte_size"]
+DW_SUGAR = [("%s", "%( %)"), ("%d", "%( value %)"), ("%x", "%( value hex %)"), ("%o", "%( value oct %)"), ("%b", "%( value bin %)"),
+            ("<%d|%x>", "<%( value %)|%( value hex %)>")]
+
+
+def work_dw_sugar(path):
+    import os
+    ev = Evidence()
+    drv = Driver(timeout=120)
+    try:
+        tok = "V%d" % drv.open(path, False)
+        for P in DW_SUGAR_PREFIXES:
+            for short, long_ in DW_SUGAR:
+                q0, q1 = '%s "%s"' % (P, short), '%s "%s"' % (P, long_)
+                r0, r1 = drv.run(q0, tok, limit=3000, steps=50000000), drv.run(q1, tok, limit=3000, steps=50000000)
+                if "cerror" in r0 or "cerror" in r1:
+                    if ("cerror" in r0) != ("cerror" in r1):
+                        ev.violations.append({"property": PID, "query": q0, "variant": q1, "file": path, "signature": "C15:dwsugar:" + P + short,
+                                              "reason": "one spelling compiles, the other does not: %r / %r" % (r0.get("cerror"), r1.get("cerror"))})
+                    continue
+                a = ([full_stack(s_) for s_ in r0["res"]], r0.get("error"), r0["stderr"].count(b"Error"))
+                b = ([full_stack(s_) for s_ in r1["res"]], r1.get("error"), r1["stderr"].count(b"Error"))
+                ev.case(key=("dwsugar", os.path.basename(path), P, short), nontrivial=bool(r0["res"]))
+                ev.label("dwarf-values:" + short)
+                if a != b:
+                    k = next((k for k, (x, y) in enumerate(zip(a[0] + [None], b[0] + [None])) if x != y), -1)
+                    ev.violations.append({"property": PID, "query": q0, "variant": q1, "file": path, "signature": "C15:dwsugar:" + P + short,
+                                          "reason": "on %s: %s yields %d result(s), %d diagnostic(s); its expansion %s yields %d, %d; first difference at #%d: %r vs %r"
+                                          % (os.path.basename(path), q0, len(a[0]), a[2], q1, len(b[0]), b[2], k, (a[0] + [None])[k] if k >= 0 else None, (b[0] + [None])[k] if k >= 0 else None)})
+    except DriverCrash as e:
+        ev.violations.append({"property": PID, "query": e.request[:200], "file": path, "reason": "driver crashed: " + e.report[-2500:], "signature": "C15:dwsugar-crash:" + path})
+    except DriverTimeout:
+        ev.inconc("watchdog")
+    finally:
+        drv.kill()
+    return ev
+
+
 KNOWN_COMMENT = '"%( 1 # ) comment\n %)"'
 
 
@@ -284,10 +328,11 @@ def main(tier, seed):
     per = max(10, n // 64)
     ev = run_pool(work, [(seed, s, min(per, n - s), depth) for s in range(0, n, per)])
     known_findings(ev)
+    ev.merge(run_pool(work_dw_sugar, DW_SUGAR_FILES))
     ev.extra["programs"] = n
     need = ["rewrite:E?=(E,)", "rewrite:if=alt", "rewrite:?(E)=([E]!=[])", "rewrite:infix=?(let)", "rewrite:raw-string",
             "rewrite:raw-string-backslash", "rewrite:raw-string-percent", "rewrite:raw-string-splice", "rewrite:raw-string-mixed",
-            "simplify:fired", "spelling:esc4", "string:split", "sugar:off", "layout:ws4", "layout:nops0", "layout:nops1"]
+            "simplify:fired", "dwarf-values:%d", "dwarf-values:%x", "spelling:esc4", "string:split", "sugar:off", "layout:ws4", "layout:nops0", "layout:nops1"]
     return finish(PID, tier, seed, ev, RULE, t0,
                   assumptions=["equivalences as stated in doc/syntax.rst; ?(E) vs ([E] != []) only where E ends by pushing a value",
                                "string literals nested inside %( %) keep their backslashes and quotes (in every escape spelling); comments inside %( %) avoid brackets and quotes (known finding)"],
